@@ -67,6 +67,8 @@ type transcript struct {
 	// closeAfter: the server closes the connection right after its last step (the transcript leaves
 	// a command unanswered on purpose)
 	closeAfter bool
+	// coarse: read faults at line boundaries only (long transcripts whose lines are all alike)
+	coarse bool
 }
 
 const greetPlus = "* OK [CAPABILITY IMAP4rev1 LITERAL+ SASL-IR IDLE NAMESPACE MOVE ENABLE UIDPLUS ESEARCH IMAP4rev2 LIST-STATUS] ready\r\n"
@@ -201,6 +203,15 @@ func corpus() []transcript {
 		_, err := c.Move(imap.SeqSetNum(1), "dst").Wait()
 		r.done("Move", 3, err)
 	})
+	// the client itself is the consumer of the fallback's STORE and EXPUNGE streams: more items than
+	// their channels buffer (128)
+	add("move-fallback-many", []step{{0, "* PREAUTH [CAPABILITY IMAP4rev1] ready\r\n"}, {1, "T1 OK [COPYUID 1 1:130 201:330] done\r\n"}, {2, strings.Repeat("* 1 FETCH (FLAGS (\\Deleted))\r\n", 130) + "T2 OK done\r\n"}, {3, strings.Repeat("* 1 EXPUNGE\r\n", 130) + "T3 OK done\r\n"}}, func(c *imapclient.Client, r *rec) {
+		var set imap.SeqSet
+		set.AddRange(1, 130)
+		_, err := c.Move(set, "dst").Wait()
+		r.done("Move", 3, err)
+	})
+	ts[len(ts)-1].coarse = true
 	add("append-nonsync", []step{{0, "* PREAUTH [CAPABILITY IMAP4rev1 LITERAL-] ready\r\n"}, {2, "T1 OK [APPENDUID 1 7] done\r\n"}}, func(c *imapclient.Client, r *rec) {
 		if c.WaitGreeting() != nil { // capabilities decide the literal form
 			r.done("WaitGreeting", 0, nil)
@@ -514,6 +525,9 @@ func enumerate(ts []transcript, thorough bool) []scenarioID {
 		total, _ := stream(&ts[ti])
 		ids = append(ids, scenarioID{ti, fault{"none", 0}})
 		for k := 0; k < len(total); k++ {
+			if ts[ti].coarse && k > 0 && total[k-1] != '\n' {
+				continue
+			}
 			for _, kind := range []string{"eof", "error", "stall-timeout-or-close", "stall-close"} {
 				ids = append(ids, scenarioID{ti, fault{kind, k}})
 			}
@@ -563,7 +577,7 @@ func main() {
 	for ti := range ts {
 		total, _ := stream(&ts[ti])
 		deep = append(deep, scenarioID{ti, fault{"none", 0}})
-		for k := 0; k < len(total); k++ {
+		for k := 0; k < len(total) && !ts[ti].coarse; k++ {
 			if k > 0 && total[k-1] == '\n' {
 				deep = append(deep, scenarioID{ti, fault{"eof", k}})
 			}
@@ -578,12 +592,18 @@ func main() {
 	results := vx.Sharded(len(ids), func(i int) vx.ItemResult {
 		id := ids[i]
 		sc := build(&ts[id.T], id.Fault)
+		// long transcripts (thousands of scheduling points per execution): a small schedule budget
+		// per fault scenario; what they are there for shows on the default schedule already
+		mx := maxExec
+		if ts[id.T].coarse {
+			mx = maxExec / 75
+		}
 		if i >= nFirst {
-			r := vx.ExploreItem(sc, dbound, vx.Config{MaxExec: maxExec * 10, Delay: true})
+			r := vx.ExploreItem(sc, dbound, vx.Config{MaxExec: mx * 10, Delay: true})
 			r.Name = "delay:" + r.Name
 			return r
 		}
-		return vx.ExploreItem(sc, bound, vx.Config{MaxExec: maxExec})
+		return vx.ExploreItem(sc, bound, vx.Config{MaxExec: mx})
 	})
 	run.Set("delay_pass_scenarios", int64(len(deep)))
 	run.Set("delay_pass_bound", int64(dbound))
